@@ -137,6 +137,8 @@ def run(ctx):
         traces_validated_against_impl=runs,
         plans=len(live), actions_ran=ran, actions_never_started=never, exhaustive_combinations_run=len(combos),
         dropped_disturbed=len(dropped), hangs=len(hangs),
+        dropped_kinds=fw.histogram(k for c in dropped for k in (c["dist"].get("dropped_kinds") or {})),
+        rerun_causes=fw.histogram(k for c in cases for k in ((c.get("dist") or {}).get("rerun_causes") or [])),
         reruns=fw.histogram(c["dist"].get("round", 0) for c in live),
         distribution=dict(outcomes_delivered=H["outcomes"], retries=H["retries"], script_len=H["script_len"],
                           invocations_per_run=H["calls"], final_status=H["status"], kinds=H["kinds"]),
@@ -144,8 +146,12 @@ def run(ctx):
     ), assumptions=[
         "the harness plugins (outcome scripts, tags in Resp.Value / Error.Code), the attribution of invocations by nonce+path, "
         "the single lock of the event log, the projection of attempts (nil-ness, Go type, Code class, Permanent, time order)",
-        "timeouts are 15-25 ms where an overrun is planned, 30 s otherwise; an invocation that machine load pushed to within 4 ms of "
-        "its deadline makes the plan re-run (up to 3 times), then drop it (counted in dropped_disturbed)",
+        "timeouts are 15-25 ms where an overrun is planned, 30 s otherwise. Machine-load disturbances make the plan re-run in a fresh "
+        "child (up to 3 times) and, if they persist, exclude it (dropped_disturbed / dropped_kinds): late_start (plugin entered "
+        "after its deadline), late_end (the plugin logged an in-time return, the engine recorded a timeout, and its write came "
+        "AFTER the invocation's deadline - the same with the write before the deadline is not excused), near_deadline (in-time "
+        "return within 4 ms of the deadline). not-entered (attempt without invocation: the worker pool gave up) is re-run too but "
+        "compared as it is if it persists. An overrunning plugin returns only after the engine's write of that attempt (cap 150 ms)",
         "modelled, not verified: Backoff.Retry of github.com/Azure/retry (transcribed), the retry policy has no MaxAttempts, the plan "
         "context is not cancelled during a run. Not covered: the back-off durations; recovered (Running) actions (C09/C10)",
     ])
